@@ -10,10 +10,34 @@ class CFG:
         self.n = len(blocks)
         self.succ = [[] for _ in range(self.n)]
         self.pred = [[] for _ in range(self.n)]
+        # infeasible switch arms: `switch(discr(_x))` where _x's only definition is an aggregate of a known variant
+        agg_variant = {}
+        ndefs = {}
         for b in blocks:
             if b.cleanup:
                 continue
-            for s in b.term.succs():
+            for st in b.stmts:
+                if st.k == "assign" and st.lhs.is_local():
+                    ndefs[st.lhs.local] = ndefs.get(st.lhs.local, 0) + 1
+                    if st.rv.k == "agg" and st.rv.j.get("ak") == "adt" and st.rv.j.get("is_enum") and "vidx" in st.rv.j:
+                        agg_variant[st.lhs.local] = st.rv.j["vidx"]
+            if b.term.k == "call" and b.term.dest is not None and b.term.dest.is_local():
+                ndefs[b.term.dest.local] = ndefs.get(b.term.dest.local, 0) + 2
+        self.pruned = {}
+        for b in blocks:
+            if b.cleanup:
+                continue
+            succs = b.term.succs()
+            t = b.term
+            if t.k == "switch" and t.discr is not None and t.discr.place is not None and t.discr.place.is_local():
+                for st in b.stmts:
+                    if st.k == "assign" and st.lhs.is_local() and st.lhs.local == t.discr.place.local and st.rv.k == "discr" \
+                            and st.rv.place.is_local() and ndefs.get(st.rv.place.local) == 1 and st.rv.place.local in agg_variant:
+                        v = agg_variant[st.rv.place.local]
+                        arms = dict(t.arms)
+                        succs = [arms.get(v, t.otherwise)]
+                        self.pruned[b.idx] = succs[0]
+            for s in succs:
                 if blocks[s].cleanup:
                     continue
                 self.succ[b.idx].append(s)
